@@ -63,7 +63,7 @@ theorem srgb_encode_is_iec (x : ℝ) : F64.apply_srgb_gamma_correction x = encSr
   simp only [F64.apply_srgb_gamma_correction, encSrgb, FltReal.le_eq, FltReal.lit_eq,
     FltReal.pow_eq, decide_eq_true_eq]
   norm_num
-  split_ifs <;> ring
+  try (split_ifs <;> ring)
 
 theorem srgb_decode_is_iec (v : ℝ) : F64.compute_srgb_gamma_expanded v = decSrgb v := by
   simp only [F64.compute_srgb_gamma_expanded, decSrgb, FltReal.le_eq, FltReal.lit_eq,
@@ -98,7 +98,7 @@ theorem rec709_encode_is_bt709 (L : ℝ) : F64.compute_rec709_gamma_correction L
   simp only [F64.compute_rec709_gamma_correction, oetf709, FltReal.lt_eq, FltReal.lit_eq,
     FltReal.pow_eq, decide_eq_true_eq]
   norm_num
-  split_ifs <;> ring
+  try (split_ifs <;> ring)
 
 theorem rec709_decode_is_bt709 (V : ℝ) : F64.compute_rec709_gamma_expanded V = invOetf709 V := by
   simp only [F64.compute_rec709_gamma_expanded, invOetf709, FltReal.lt_eq, FltReal.lit_eq,
@@ -109,7 +109,7 @@ theorem rec2020_encode_is_bt2020 (L : ℝ) : F64.compute_rec2020_gamma_correctio
   simp only [F64.compute_rec2020_gamma_correction, oetf2020, α2020, β2020, FltReal.lt_eq, FltReal.lit_eq,
     FltReal.pow_eq, decide_eq_true_eq]
   norm_num
-  split_ifs <;> ring
+  try (split_ifs <;> ring)
 
 theorem rec2020_decode_is_bt2020 (V : ℝ) (hV : V < 0.081 ∨ 0.08145 ≤ V) :
     F64.compute_rec2020_gamma_expanded V = invOetf2020 V := by
